@@ -16,7 +16,7 @@ CLAIM = {
     "note": "Trusted: my float64 implementation of the drift formulas (DM drift in bins of period/nbins relative to the first sub-band; linear period drift round(i*dbins/nsubints)). Where rounding sits within 1e-3 of a half bin either neighbouring shift is accepted (counted). DM drifts are expressed in bins of the folding period.",
     "technique": "runtime monitoring: operation-history enumeration with an invariant hook after every call, against a rotate-once reference model",
 }
-ASSUMPTIONS = ["profiles hold distinct values so the applied rotation is uniquely recoverable", "period targets within 1e-3 of the folding period; |DM - DM0| <= 40"]
+ASSUMPTIONS = ["profiles hold distinct values so the applied rotation is uniquely recoverable", "lattice targets: periods within 1e-3 of the folding period, |DM - DM0| <= 40; random histories: |DM - DM0| <= 3000, periods within 5e-3"]
 RULE = ("histories: all op sequences of length <= L (quick 4, thorough 5) over {update_dm(dm0), update_dm(dm0+5), update_dm(dm0-5), update_dm(dm0+40), update_period(P0), "
         "update_period(P0(1+1e-4)), update_period(P0(1-1e-4)), update_period(P0(1+1e-3))} on three cube shapes, + random histories of length 50 with random targets. "
         "Non-trivial = the history contains >= 2 calls with different targets; distinct = distinct (shape, op list)")
@@ -25,7 +25,7 @@ DM0, P0 = 30.0, 0.1
 
 
 def REQUIRED(tier):
-    return ["histories", "hook_checks", "rotation_checks", "law:repeat_noop", "law:return_restores", "ops:update_dm", "ops:update_period", "shape:single_subband", "shape:single_subint"]
+    return ["histories", "hook_checks", "rotation_checks", "law:repeat_noop", "law:return_restores", "law:history_independence", "ops:update_dm", "ops:update_period", "shape:single_subband", "shape:single_subint"]
 
 
 def EXHAUSTIVE(tier):
@@ -33,7 +33,8 @@ def EXHAUSTIVE(tier):
 
 
 def alphabet():
-    return [("dm", DM0), ("dm", DM0 + 5), ("dm", DM0 - 5), ("dm", DM0 + 40), ("p", P0), ("p", P0 * (1 + 1e-4)), ("p", P0 * (1 - 1e-4)), ("p", P0 * (1 + 1e-3))]
+    # P0*(1+1e-5) implies less than half a bin of total drift: a target that rotates nothing but is not the folding period
+    return [("dm", DM0), ("dm", DM0 + 5), ("dm", DM0 - 5), ("dm", DM0 + 40), ("p", P0), ("p", P0 * (1 + 1e-4)), ("p", P0 * (1 + 1e-5)), ("p", P0 * (1 + 1e-3))]
 
 
 def cases(tier, seed):
@@ -154,6 +155,19 @@ def run_history(ctx, shape, ops, rec):
             if not np.array_equal(np.asarray(fd.data), base):
                 ctx.violation("return-does-not-restore", f"step {step}: back at the folding values but the cube differs from the original", rec)
                 return False
+    # history independence, formula-free: a fresh cube taken straight to the final targets (either order) must equal this one
+    for order in (("dm", "p"), ("p", "dm")):
+        fresh, _ = _cube(shape)
+        for kind in order:
+            if kind == "dm":
+                fresh.update_dm(dm)
+            else:
+                fresh.update_period(period)
+        ctx.count("law:history_independence")
+        if not np.array_equal(np.asarray(fresh.data), np.asarray(fd.data)):
+            nd = int(np.sum(np.any(np.asarray(fresh.data) != np.asarray(fd.data), axis=2)))
+            ctx.violation("history-dependence", f"cube after the history differs in {nd} profiles from a fresh cube taken directly to dm={dm}, period={period!r} (order {order})", rec)
+            return False
     if len(targets) >= 2:
         ctx.nontrivial_case(rec)
     return True
@@ -189,9 +203,9 @@ def run_case(case, ctx):
     ops = []
     for _ in range(case["len"]):
         if rng.random() < 0.5:
-            ops.append(("dm", float(rng.choice([DM0, DM0 + float(rng.integers(-40, 41)), DM0 + float(rng.uniform(-40, 40))]))))
+            ops.append(("dm", float(rng.choice([DM0, DM0 + float(rng.integers(-40, 41)), DM0 + float(rng.uniform(-40, 40)), DM0 + float(rng.uniform(-3000, 3000))]))))
         else:
-            ops.append(("p", float(P0 * (1 + rng.choice([0.0, float(rng.uniform(-1e-3, 1e-3)), 1e-4, -1e-4])))))
+            ops.append(("p", float(P0 * (1 + rng.choice([0.0, float(rng.uniform(-1e-3, 1e-3)), 1e-4, -1e-4, float(rng.uniform(-2e-5, 2e-5)), float(rng.uniform(-5e-3, 5e-3))])))))
     rec = {"kind": "history", "shape": case["shape"], "ops": [list(o) for o in ops]}
     if run_history(ctx, shape, ops, rec) and case["hseed"] % 25 == 0:
         ctx.sample({"shape": list(shape), "random_history_head": [list(o) for o in ops[:6]], "length": len(ops)})
